@@ -1377,3 +1377,90 @@ func definitionValidators(p *core.Program) map[*types.Func]bool {
 	}
 	return isVal
 }
+
+// c14FuncMembers — C14-R18: the function-valued members of the definitions
+// (a regime's or addon's Normalizer and Validator, a scenario's Filter) are
+// optional: a definition without one holds nil. Such a member is called —
+// directly, or as an element of a list that is called element by element (a
+// composite literal or builtin append of a func-slice type such as
+// tax.Normalizers) — only where it is known not to be nil. Handing it to a
+// method (Normalizers.Append drops nil) is the callee's business.
+func c14FuncMembers(c *core.Ctx) {
+	p := c.P
+	c.Rule("C14-R18", "function-valued members of definitions are nil-tested before they are called or listed for calling", 3)
+	m := &memberCheck{c: c, p: p, ctxs: map[*ast.BlockStmt]*bodyCtx{}}
+	n := 0
+	funcField := func(info *types.Info, e ast.Expr) *types.Var {
+		se, ok := ast.Unparen(e).(*ast.SelectorExpr)
+		if !ok {
+			return nil
+		}
+		f := core.FieldOf(info, se)
+		if f == nil || f.Pkg() == nil || !core.InModule(f.Pkg()) {
+			return nil
+		}
+		if _, isSig := f.Type().Underlying().(*types.Signature); !isSig {
+			return nil
+		}
+		return f
+	}
+	for _, fd := range p.AllFuncs() {
+		if p.IsTestFile(fd.Decl.Pos()) || fd.Decl.Body == nil {
+			continue
+		}
+		rel := core.RelPkg(fd.Obj.Pkg().Path())
+		if strings.HasPrefix(rel, "examples") || strings.HasSuffix(p.RelFile(fd.Decl.Pos()), "mage.go") {
+			continue
+		}
+		info := fd.Pkg.TypesInfo
+		idx := 0
+		report := func(e ast.Expr, at ast.Node, how string) {
+			n++
+			idx++
+			b := m.ctxAt(fd, at)
+			c.Ob("C14-R18", fmt.Sprintf("%s#%s%d", fd.Name(), exprKey(e), idx), at.Pos(), b.nonNil(at, exprKey(e)),
+				fmt.Sprintf("%s is a function-valued member that a definition may leave nil, and %s with no nil test of it on the way: for such a definition the call panics instead of the operation returning an error", exprKey(e), how))
+		}
+		ast.Inspect(fd.Decl.Body, func(nd ast.Node) bool {
+			switch x := nd.(type) {
+			case *ast.CallExpr:
+				if funcField(info, x.Fun) != nil {
+					report(x.Fun, x, "it is called")
+					return true
+				}
+				if id, ok := x.Fun.(*ast.Ident); ok && id.Name == "append" {
+					if _, isB := info.Uses[id].(*types.Builtin); isB && len(x.Args) > 1 {
+						if sl, ok := info.TypeOf(x.Args[0]).Underlying().(*types.Slice); ok {
+							if _, isSig := sl.Elem().Underlying().(*types.Signature); isSig {
+								for _, a := range x.Args[1:] {
+									if funcField(info, a) != nil {
+										report(a, x, "it is appended to a list of functions that is called element by element")
+									}
+								}
+							}
+						}
+					}
+				}
+			case *ast.CompositeLit:
+				t := info.TypeOf(x)
+				if t == nil {
+					return true
+				}
+				sl, ok := t.Underlying().(*types.Slice)
+				if !ok {
+					return true
+				}
+				if _, isSig := sl.Elem().Underlying().(*types.Signature); !isSig {
+					return true
+				}
+				for _, el := range x.Elts {
+					if funcField(info, el) != nil {
+						report(el, x, "it is listed in a literal of functions that is called element by element")
+					}
+				}
+			}
+			return true
+		})
+	}
+	c.Ob("C14-R18", "function-members#found", token.NoPos, n >= 3, fmt.Sprintf("only %d uses of function-valued members were found", n))
+}
